@@ -53,7 +53,7 @@ class PipeSim(object):
     def __init__(self, layout, add_pilot=True):
         self.problems = []
         self._n_comp = len(rpu_component._components)
-        base = boot.fresh_dir('pipe.')
+        base = boot.case_dir('pipe.')
         self.cdir = os.path.join(base, 'client')
         self.rdir = os.path.join(base, 'remote')
         os.makedirs(self.cdir)
